@@ -601,7 +601,17 @@ func checkC13(tc *TreeCase) *Outcome {
 	if x := countPieceCrossings(ps); x != 0 {
 		return o.failf("tree drawn with %d edge crossings (by x-order between adjacent bands)", x)
 	}
-	if tc.Uniform && uniformSizes(c) {
+	// With uniform node sizes and no bends (every edge spans one band - the usual case in a tree, though vertical
+	// balancing may stretch an edge) all anchors of a band lie on one horizontal line, so "in order at both bands" and
+	// "the segments do not intersect" are the same statement: then both are asserted. With bends they are not (bends
+	// sit mid-band, DESIGN.md section 4) and only the x-order count is the property's crossing number.
+	bends := false
+	for _, e := range l.Edges {
+		if len(e.Points) > 2 {
+			bends = true
+		}
+	}
+	if tc.Uniform && uniformSizes(c) && !bends {
 		if x := countGeometricCrossings(l); x != 0 {
 			return o.failf("tree drawn with %d geometric edge crossings", x)
 		}
